@@ -758,6 +758,7 @@ func (s *sys) names() []string {
 type replay struct {
 	Ops   []string   `json:"ops,omitempty"`
 	Sweep *sweepCase `json:"sweep,omitempty"`
+	Size  *sizeCase  `json:"size,omitempty"`
 }
 
 func configs(thorough bool) []struct {
@@ -828,6 +829,14 @@ func main() {
 	if r.Replay != "" {
 		var rp replay
 		r.LoadReplay(&rp)
+		if rp.Size != nil {
+			fp, what, _ := runSizeCase(*rp.Size)
+			os.RemoveAll(base)
+			if fp != "" {
+				r.Violation(fp, what, rp)
+			}
+			r.Finish()
+		}
 		if rp.Sweep != nil {
 			fp, what := runSweepCase(*rp.Sweep)
 			os.RemoveAll(base)
@@ -865,6 +874,7 @@ func main() {
 	}
 	var rows []row
 	sweepPart(r.Quick())
+	sizeSweepPart(r.Quick())
 	for _, cd := range configs(r.Thorough()) {
 		cfg := mk(cd.c)
 		cfg.MaxDepth = cd.depth
